@@ -24,6 +24,8 @@ SPEC definitions used (`Model/Frame.lean`): `Doc.frames`, `Doc.allFrames`, `Doc.
 `run`, `Doc.Fresh`, `Doc.NoLayers`, `hole`, `Doc.sidElsewhere`; here: `others`.
 -/
 namespace Nima.C04
+-- name tokens are compared by spelling in this file (see `NameCmp` in Model/Edit.lean)
+attribute [local instance] NameCmp.spelled
 
 open Node
 
